@@ -38,6 +38,9 @@ CHECK_DEADLOCK FALSE
 FILL = {'zero': 0.0, 'seven': 7.0, 'nan': float('nan'), 'inf': float('inf')}
 
 
+MASKS = {}      # RegionMask objects are reused across replayed states: a call must not leave anything behind in them
+
+
 def weight(pat, j, i):
     return {'ones': 2, 'checker': 2 if (i + j) % 2 == 0 else 0, 'mix': (i + 2 * j + 1) % 3, 'half': 1}[pat]
 
@@ -87,7 +90,12 @@ def replay(ctx, st, idx):
     box, (h, w), pat, op, arg, res = st['box'], st['img'], st['pat'], st['op'], st['arg'], st['res']
     kind = ['int', 'float', 'quantity'][idx % 3]
     copy = bool((idx // 3) % 2)
-    mask = make_mask(box, pat)
+    mk = (tuple(box), pat)
+    mask = MASKS.get(mk)
+    if mask is None:
+        if len(MASKS) > 400:
+            MASKS.clear()
+        mask = MASKS[mk] = make_mask(box, pat)
     img = make_image(h, w, kind)
     img_before = plain(img).tobytes()
     m_before = mask.data.tobytes()
@@ -189,7 +197,7 @@ def run(ctx):
 
 
 def enc(grid):
-    return 'none' if grid is None else grid
+    return grid
 
 
 def trace_validation(ctx):
@@ -231,7 +239,13 @@ def trace_validation(ctx):
         except Exception as ex:  # noqa
             ctx.violation(f'C05|trace|{op}|raises|{type(ex).__name__}', f'{op} raised {ex!r}', {'box': box, 'image_shape': [h, w]})
             continue
-        events.append({'op': op, 'box': box, 'h': h, 'w': w, 'pat': pat, 'arg': arg, 'res': res})
+        # a result of the wrong dimensions cannot even be compared cell by cell: report it here
+        if res is not None and op != 'get_values':
+            want_shape = (h, w) if op == 'to_image' else (ny, nx)
+            if (len(res), len(res[0]) if res else 0) != (want_shape if want_shape[0] else (0, 0)):
+                ctx.violation(f'C05|trace|{op}|shape', f'{op} returned an array of the wrong shape', {'box': box, 'image_shape': [h, w]})
+                continue
+        events.append({'op': op, 'box': box, 'h': h, 'w': w, 'pat': pat, 'arg': arg, 'isnone': res is None, 'res': [] if res is None else res})
     wd = tlc.workdir('c05trace')
     path = os.path.join(wd, 'events.json')
     with open(path, 'w') as f:
@@ -242,7 +256,7 @@ def trace_validation(ctx):
     for st in res.states():
         seen += 1
         e = events[st['i'] - 1]
-        ctx.case(('trace', json.dumps(e, sort_keys=True)), e['res'] not in ('none', []))
+        ctx.case(('trace', json.dumps(e, sort_keys=True)), e['res'] != [])
         if st['verdict'] != 'ok':
             ctx.violation(f"C05|trace|{st['verdict']}", f"recorded call rejected by Trace_Placement: {st['verdict']}", e)
     if seen != len(events):
